@@ -85,4 +85,8 @@ def replay(data):
     return pegprop.replay(CFG, data)
 
 
-PARTIAL = ['C13_roundtrip_reaction_infobox_full: reaction with rate information [NAME (=|:) RATE [+/- (RATE|inf)] /UNIT.../TIME] (reaction without it is proved)', 'C13_roundtrip_kernel_concentration_full: kernel complex with `@ (initial|i|constant|c) NUMBER UNIT` (without it is proved)', 'C13_roundtrip_dl_domain_tabs_full (and the same for every kind): layouts containing tabs; the theorems are stated for tab-free text (on which expandtabs is the identity); the interpreter itself treats a tab as a blank', 'C13_reject_unbalanced_kernel_full: rejection of unbalanced kernel brackets for all patterns', 'C13_default_fuel_suffices_full: the fuel (|text|+2)*|table| of parse_pil always suffices; every theorem gives the answer for all sufficiently large fuel, OutOfFuel never occurred in any correspondence case', 'C13_reject_missing_name: REFUTED (C13_reject_missing_name_refuted): `length = 5` is a kernel complex named `length`', 'no_skipped_text (DESIGN): not stated']
+PARTIAL = [
+    "C13_reject_unclosed_loop_full: an opening bracket attached to a name and never closed (`x = a b( c`); proved: a pattern followed by an unmatched `)` or a detached `(`",
+    "C13_roundtrip_dl_domain_tabs_full (and the same for every kind): layouts containing tabs; the theorems are stated for tab-free text (on which expandtabs is the identity); the interpreter itself treats a tab as a blank",
+    "C13_reject_missing_name: REFUTED (C13_reject_missing_name_refuted): `length = 5` is a kernel complex named `length`",
+]
